@@ -19,6 +19,7 @@ from ..utils import Bunch, python_is_at_least
 from ..errors import EvalError
 
 import os
+import ast
 import dis
 import sys
 import types
@@ -99,14 +100,13 @@ class EvalNode(ConfigScalar(str)):
         gbls = EvalGlobals(gbls, ctx.ecfg, ctx, self, path)
 
         lines = self.strip().split('\n')
-        lines = [lline for line in lines for lline in line.split(';')]
-
-        exec_lines = "\n".join(lines[:-1])
-        eval_line = lines[-1].strip()
 
         try:
-            exec_code = compile(exec_lines, self._source_file or '<unknown>', 'exec')
-            eval_code = compile(eval_line, self._source_file or '<unknown>', 'eval')
+            tree = ast.parse(self.strip(), self._source_file or '<unknown>', 'exec')
+            if not tree.body or not isinstance(tree.body[-1], ast.Expr):
+                raise SyntaxError('the last statement of an !eval node has to be an expression')
+            exec_code = compile(ast.Module(body=tree.body[:-1], type_ignores=[]), self._source_file or '<unknown>', 'exec')
+            eval_code = compile(ast.Expression(body=tree.body[-1].value), self._source_file or '<unknown>', 'eval')
             exec(exec_code, gbls)
             ret = eval(eval_code, gbls)
         except EvalError as e:
@@ -120,7 +120,7 @@ class EvalNode(ConfigScalar(str)):
             code = f'=== CODE BEGINS ===\n{os.linesep.join(lines)}\n=== CODE ENDS ==='
             raise EvalError('The above exception occurred in the user code.', self, path, note=code) from e
 
-        if len(lines) > 1 and self.persistent_namespace:
+        if len(tree.body) > 1 and self.persistent_namespace:
             eval_node_module = types.ModuleType(eval_module_name, 'Dynamic module to evaluate awesomeyaml !eval node')
             eval_node_module.__dict__.update(gbls)
             sys.modules[eval_module_name] = eval_node_module
